@@ -122,6 +122,18 @@ fn owned_part(tier: Tier, out: &mut Outcome, bad: &mut Vec<Bad>) {
             record(&ops, r, bad);
         }
     }
+    // soak: many frames of a few messages each (counters in the conditioner are cumulative)
+    {
+        let mut ops = Vec::new();
+        for f in 0..220u32 {
+            for i in 0..3u8 {
+                ops.push(HOp::Ins(0, (i + (f % 2) as u8) % 2));
+            }
+            ops.push(HOp::Pop(0));
+        }
+        let r = guarded(|| run_history(&ops)).unwrap_or_else(|(m, l)| Err(format!("panic: {m} ({l})")));
+        record(&ops, r, bad);
+    }
     // every history over a small alphabet with non-decreasing timestamps (as the backend produces them)
     let alphabet = [HOp::Ins(0, 0), HOp::Ins(0, 1), HOp::Ins(1, 0), HOp::Ins(1, 1), HOp::Pop(0), HOp::Pop(1)];
     let depth = if tier.quick() { 7 } else { 9 };
@@ -176,8 +188,14 @@ struct Up1(u32, Vec<u8>);
 #[derive(Resource, Default)]
 struct Got(Vec<(u8, u32, Vec<u8>)>);
 
+/// Payload such that the serialized event (varint seq + varint len + bytes) has `size` bytes in total.
 fn payload(seq: u32, size: usize) -> Vec<u8> {
-    (0..size).map(|i| (seq as usize * 31 + i * 7) as u8).collect()
+    let seq_len = if seq < 128 { 1 } else { 2 };
+    let mut n = size.saturating_sub(seq_len + 1);
+    if n >= 128 {
+        n = size.saturating_sub(seq_len + 2);
+    }
+    (0..n).map(|i| (seq as usize * 31 + i * 7) as u8).collect()
 }
 
 fn build_app() -> App {
@@ -335,7 +353,7 @@ fn loopback_burst(n: usize, size: usize, upstream: bool) -> Result<Option<u64>, 
 
 fn loopback_part(tier: Tier, out: &mut Outcome, bad: &mut Vec<Bad>) {
     let counts: Vec<usize> = if tier.quick() { vec![1, 2, 3, 4, 7, 12, 16] } else { (1..=48).collect() };
-    let sizes: Vec<usize> = if tier.quick() { vec![0, 128, 1180] } else { vec![0, 1, 127, 128, 1179, 1180] };
+    let sizes: Vec<usize> = if tier.quick() { vec![2, 130, 1197, 1200] } else { vec![2, 3, 129, 130, 131, 1196, 1197, 1198, 1199, 1200] };
     let mut runs = 0u64;
     let mut inconclusive = 0u64;
     let mut outcomes = BTreeSet::new();
